@@ -501,6 +501,16 @@ func genTemplate(t *rapid.T, pf Profile, w *World) Pod {
 	}
 	if chance(t, 1, "initContainer") {
 		p.InitCPU = pickInt(t, "initCpu", 100, 3000)
+		if chance(t, 3, "initMem") {
+			p.InitMemMB = pickInt(t, "initMemMB", 64, 2048, 6000)
+		}
+	}
+	// runtime-class overhead; together with a larger init container the order of max() and + matters
+	if chance(t, 1, "podOverhead") || (p.InitCPU > 0 && chance(t, 5, "podOverheadWithInit")) {
+		p.OverheadCPU = pickInt(t, "overheadCpu", 250, 1000, 2000)
+		if chance(t, 5, "overheadMem") {
+			p.OverheadMemMB = pickInt(t, "overheadMemMB", 128, 1024, 4096)
+		}
 	}
 	hasDRA, hasDRAGPU := false, false
 	for _, n := range w.Nodes {
